@@ -9,3 +9,7 @@
 
 pub(crate) mod refmodel;
 pub(crate) mod hashv;
+pub(crate) mod cmpv;
+pub(crate) mod genv;
+pub(crate) mod easyv;
+pub(crate) mod serdev;
